@@ -156,6 +156,12 @@ def check_ops(ctx, num=4):
             continue
         adds = [c for c in calls_named(f, "add") if isinstance(c.func, ast.Attribute) and norm.is_name(c.func.value, setn)]
         full = False
+        sdef = [x for x in own_nodes(f.node) if isinstance(x, ast.Assign) and any(norm.is_name(t, setn) for t in x.targets) and isinstance(x.value, ast.SetComp)]
+        if len(sdef) == 1 and len(sdef[0].value.generators) == 3 and not any(gg.ifs for gg in sdef[0].value.generators):
+            g1, g2, g3 = sdef[0].value.generators
+            if norm.U(g1.iter) == f"{s_p}.queues_by_prio.values()" and isinstance(g1.target, ast.Name) and norm.is_name(g2.iter, g1.target.id) and isinstance(g2.target, ast.Name) \
+                    and norm.U(g3.iter) == f"{g2.target.id}.ops" and isinstance(g3.target, ast.Name) and norm.U(sdef[0].value.elt) == f"{g3.target.id}.id" and g.dominates(sdef[0], n):
+                full = True
         for a in adds:
             l1 = enclosing_for(a, f.node)
             l2 = enclosing_for(l1, f.node) if l1 is not None else None
